@@ -228,7 +228,7 @@ def unit_gather(dim, track, layout):
     jar, D, fr, mu = S["jar"], S["D"], S["fr"], S["mu"]
     _, U, TT = L.elliptic_terms(jar, mu, fr[: dim - 1])
     names = {f"jaref{j}": jar[j] for j in range(dim)} | {f"D{j}": D[j] for j in range(dim)} | {f"friction{j}": fr[j] for j in range(dim - 1)} | {"impratio_invsqrt": S["imp"]}
-    rp = lambda nm: L.launch_replay(PID, ctx.unit, nm, loc, S["k"], S["args"], "checks.c24:goal_elliptic_contact", env={"w": w, "e0": e0, "conid": c, "dim": dim, "randomize_floats": 4})
+    rp = lambda nm: L.launch_replay(ctx.pid, ctx.unit, nm, loc, S["k"], S["args"], "checks.c24:goal_elliptic_contact", env={"w": w, "e0": e0, "conid": c, "dim": dim, "randomize_floats": 4})
     labels = ["is_equality", "is_friction", "is_elliptic", "jaref", "D", "frictionloss", "efcid", "efcid0", "jaref0", "D0", "mu", "ufrictionj", "TT"]
     for j in range(dim):
       if R.res[j] is None:
@@ -245,38 +245,7 @@ def unit_gather(dim, track, layout):
   return (f"gather/elliptic/condim{dim}/{layout}{'/track' if track else ''}", run)
 
 
-class MemoInterp(core.Interp):
-  """Interp with sqrt memoised per radicand (sqrt is a function) and a table of known roots."""
-
-  def __init__(self, roots=None, **kw):
-    super().__init__(**kw)
-    self.roots = dict(roots or {})
-    self.divs = {}
-
-  def sqrt(self, x):
-    if is_sym(x):
-      key = x.sexpr()
-      if key in self.roots:
-        return self.roots[key]
-      s = super().sqrt(x)
-      self.roots[key] = s
-      return s
-    return super().sqrt(x)
-
-
-def safe_div_contract(interp, frame, args):
-  """math.safe_div(x, y) = x / (y if y != 0 else MJ_MINVAL) as a polynomial contract, memoised per (x, y)"""
-  from mujoco_warp._src import types
-
-  x, y = core.to_z3(args[0], "real"), core.to_z3(args[1], "real")
-  key = (x.sexpr(), y.sexpr())
-  if key in interp.divs:
-    return interp.divs[key]
-  q = z3.Real(f"sdiv!{next(interp.fresh)}")
-  interp.assumes.append(z3.Implies(y != 0, q * y == x))
-  interp.assumes.append(z3.Implies(y == 0, q * z3.RealVal(repr(float(types.MJ_MINVAL))) == x))
-  interp.divs[key] = q
-  return q
+MemoInterp, safe_div_contract = L.MemoInterp, L.safe_div_contract
 
 
 def eval_elliptic(dim, tag=""):
